@@ -186,6 +186,22 @@ def c13_units(sc, base, seed):
     b = run_records(tw)
     out += cmp_records("C13", base, b, f"table and impacts multiplied by {cfac:g}", rtol=1e-6, atol_scale=1e-7,
                        scale_b=cfac, extra_abs=q * 50)
+    # the same economy in a smaller unit: table x 10^k, model factor / 10^k, events as they are (their own
+    # unit).  This is `unit_change_simulation` (Properties/C13Run.lean): the quantum is the same amount of
+    # money, so the two runs agree up to the branch of the closeness tests (absolute tolerance 1e-8)
+    ks = [k for k in (3, 6) if mf >= 10 ** k]
+    if ks:
+        k = rng.choice(ks)
+        c = 10.0 ** k
+        tw = copy.deepcopy(sc)
+        tw["table"]["Z"] = [[v * c for v in row] for row in tw["table"]["Z"]]
+        tw["table"]["Y"] = [[v * c for v in row] for row in tw["table"]["Y"]]
+        tw["model"]["monetary_factor"] = mf // 10 ** k
+        if tw["model"]["capital"]["kind"] in ("ndarray", "series", "dataframe"):
+            tw["model"]["capital"]["values"] = [v * c for v in tw["model"]["capital"]["values"]]
+        b = run_records(tw)
+        out += cmp_records("C13", base, b, f"same economy in a unit 10^{k} times smaller (model factor / 10^{k})",
+                           rtol=1e-6, atol_scale=1e-7, scale_b=c, extra_abs=q * 50)
     return out
 
 
